@@ -10,6 +10,8 @@ import PdfModel.Model.Numeric
   c14.walk <root> <objs>                   obj `l<n>` | `i` | `i<k>+<k>…` | `b`   → `ok <calls> <gets>` | `err <gets>`
   c14.page <n> <rootkids> <objs>           obj `t<count>` | `t<count>:<k>+…` | `p` | `b`; rootkids `k+k…` or `-`   → `ok <leaf>` | `err`
   c14.cs <k> <objs>                        obj `n` | `x<b>` | `s<b>` | `d<b>` | `o` | `b`  → ok | err
+  c14.keysched <clamp> <revision> <keyBits> <userOk>   → ok | err | panic   (slices of from_password, revisions 2–4)
+  c14.objkey <aes> <keySize> <keyLen>      → ok | panic   (slices of Decoder::decrypt)
   c14.ap <k> <objs>                        obj `s` | `d` | `d<v>+<v>…` | `b`   → ok | err
   c14.prev <start_offset> <startxref|x> <buffer length> <abs:sec,…>   sec `u` (unreadable) | `e` (no /Prev) | `p<header-relative number>`
                                            (positions not listed are unreadable)  → `ok <sections>` | err
@@ -232,6 +234,14 @@ def handle (args : List String) : String :=
     match natOf k, mapM? parseCObj (listOf objs ",") with
     | some k, some g => (csLoad g 5 k).tag
     | _, _ => "bad-request"
+  | ["c14.keysched", clamp, revision, bits, userOk] =>
+    match boolOf clamp, natOf revision, natOf bits, boolOf userOk with
+    | some c, some r, some b, some u => (keySchedule c r b u).tag
+    | _, _, _, _ => "bad-request"
+  | ["c14.objkey", aes, keySize, keyLen] =>
+    match boolOf aes, natOf keySize, natOf keyLen with
+    | some a, some ks, some kl => (objectKeySlices a ks kl).tag
+    | _, _, _ => "bad-request"
   | ["c14.ap", k, objs] =>
     match natOf k, mapM? parseAObj (listOf objs ",") with
     | some k, some g => (apLoad g 2 k).tag
